@@ -765,7 +765,7 @@ func TestVerif_C11(t *testing.T) {
 	sb.WriteString("(* refresh with a form: (identity, blocks, peer, form without the key, answered 200, identity and blocks of the returned certificate) *)\n")
 	sb.WriteString("Definition refresh_cases : list (bs * list netblock * peer * form * bool * bs * list netblock) := [\n " + strings.Join(refreshCases, ";\n ") + "].\n")
 	sb.WriteString("Definition c11_refresh_mismatches := Eval vm_compute in mismatches (fun c : bs * list netblock * peer * form * bool * bs * list netblock => let '(cn, bl, p, f, ok, ncn, nbl) := c in match refresh (minted cn bl) p f true with Some (id, m) => negb (ok && bs_eqb id ncn && blocks_eqb m nbl) | None => ok end) refresh_cases.\nPrint c11_refresh_mismatches.\n")
-	sb.WriteString("(* sequences of requests on one server: per step (blocks as requested, verified chain, DidResume, peer, admitted) *)\n")
+	sb.WriteString("(* sequences of requests on one server: per step (blocks as requested, verified chain, DidResume, peer, let in) *)\n")
 	sb.WriteString("Definition seq_cases : list (list obs_step) := [\n " + strings.Join(seqCases, ";\n ") + "].\n")
 	sb.WriteString("Definition c11_resume_mismatches := Eval vm_compute in mismatches seq_bad seq_cases.\nPrint c11_resume_mismatches.\n")
 	sb.WriteString("Definition c11_resume_violating := Eval vm_compute in mismatches (fun s => seq_bad s && seq_violates s) seq_cases.\nPrint c11_resume_violating.\n")
